@@ -397,7 +397,8 @@ def struct_rules(ctx, item):
         pure_chain = all(c_ in ('iter', 'into_iter', 'map', 'collect', 'deref', 'cloned', 'copied', 'opt-map', 'chain') for c_ in chain_)     # every entry, in order
         det = 'type %s path %s/%s dedup %s source %s chain %s' % (show(te), p1, p2, labs, base[:60], chain_)
         oka = pure_chain and same_t and p1 == p2 and pair and len(labs) == 2 and 'len' in labs[0] and labs[0].startswith('Gt(') and labs[0].endswith(', 1)=True') and 'dfs_hierarchy' in base and \
-            re.search(r'impl (?::: )?(?:std|core) :: convert :: AsRef < ' + H + ' > for ' + H + r' \{ fn as_ref \( & self \) -> & ' + H + r' \{ self \} \}', once) is not None
+            re.search(r'impl (?::: )?(?:std|core) :: convert :: AsRef < ' + H + ' > for ' + H + r' \{ fn as_ref \( & self \) -> & ' + H + r' \{ self \} \}', once) is not None and \
+            re.search(r'impl (?::: )?(?:std|core) :: convert :: AsMut < ' + H + ' > for ' + H + r' \{ fn as_mut \( & mut self \) -> & mut ' + H + r' \{ self \} \}', once) is not None
     # the grouping map that the dedup test indexes: every (type, path) entry is *added to* the list of its type
     # (entry(type).or_default().push(path)), for every entry of the same vector — a map built by overwriting would make every
     # group look unique and emit conflicting impls
